@@ -128,6 +128,14 @@ impl EntryTrait for IndexEntry {
 }
 
 impl IndexEntry {
+    /// True if `mtime` and `mtime_nanos` describe a time that can be represented.
+    ///
+    /// Entries read from an index are checked with this, so that [EntryTrait::mtime] cannot
+    /// fail on a corrupt index.
+    pub(crate) fn has_valid_mtime(&self) -> bool {
+        i32::try_from(self.mtime_nanos).is_ok_and(|nanos| Timestamp::new(self.mtime, nanos).is_ok())
+    }
+
     /// Copy the metadata, but not the body content, from another entry.
     ///
     /// The result has no blocks.
